@@ -41,11 +41,16 @@ static int vidp(const void * v, int pr)
 static const void * kptr(int k) { return ptrrep ? (const void *)(uintptr_t)k : (const void *)&keytab[k]; }
 static void * vptr(int v) { return ptrrep ? (void *)(uintptr_t)v : (void *)&valtab[v]; }
 
-static int clr_log[2 * MAXV], clr_n, clr_bad;
+/* per callback: key, val, number of live heap blocks at the time of the call (the node the
+ * entry lives in must still be allocated while the user callback runs: map.c frees it afterwards) */
+static int clr_log[3 * MAXV], clr_n, clr_bad;
 static void clr(void * ip, void * p)
 {
     cstl_map_iterator_t * i = ip; (void)p;
-    if (clr_n < MAXV) { clr_log[2 * clr_n] = kidp(i->key, 1); clr_log[2 * clr_n + 1] = vidp(i->val, 1); }
+    if (clr_n < MAXV) {
+        clr_log[3 * clr_n] = kidp(i->key, 1); clr_log[3 * clr_n + 1] = vidp(i->val, 1);
+        clr_log[3 * clr_n + 2] = ha_live_count();
+    }
     if (i->_ != NULL) clr_bad = 1;
     clr_n++;
 }
@@ -68,7 +73,8 @@ static void shape(const struct cstl_bintree_node * n, const struct cstl_bintree_
 
 static void dump(void)
 {
-    printf(" | %zu |", cstl_map_size(&map));
+    /* size field, then the number of calls of the user comparison made by this operation */
+    printf(" | %zu | %d |", cstl_map_size(&map), cmpcalls);
     malformed = 0;
     shape(map.t.t.root, NULL, 0);
     if (malformed) printf(" MALFORMED");
@@ -95,6 +101,7 @@ static void run_case(const struct h_case * c)
         if (!started) { cstl_map_init(&map, kcmp, NULL); started = 1; }
         if (a < 0 || a >= MAXK || b < 0 || b >= MAXV) { printf("precond\n"); return; }
         ha_active = 1;
+        cmpcalls = 0;
         if (h_weq(l, 0, "insert")) {
             rc = cstl_map_insert(&map, kptr(a), vptr(b), &it);
             ha_active = 0;
@@ -130,7 +137,7 @@ static void run_case(const struct h_case * c)
             cstl_map_clear(&map, h_weq(l, 0, "clear") ? clr : NULL, NULL);
             ha_active = 0;
             printf("ok");
-            for (k = 0; k < clr_n && k < MAXV; k++) printf(" %d %d", clr_log[2 * k], clr_log[2 * k + 1]);
+            for (k = 0; k < clr_n && k < MAXV; k++) printf(" %d %d %d", clr_log[3 * k], clr_log[3 * k + 1], clr_log[3 * k + 2]);
             if (clr_bad) printf(" BADITER");
         } else if (h_weq(l, 0, "live")) {
             ha_active = 0;
